@@ -106,8 +106,24 @@ class Prop(common.PropertyCheck):
                 with pd.ExcelWriter(path, engine='openpyxl') as w:
                     written.to_excel(w, sheet_name='T', index=False)
             else:
-                FlowCal.excel_ui.write_workbook(path, [('T', written.set_index('ID')), ('Other', pd.DataFrame({'a': [1]}))]) if written['ID'].notnull().all() and len(written) else \
+                uses_ww = bool(written['ID'].notnull().all() and len(written))
+                if uses_ww:
+                    # something already lies at the output path: an older workbook with other sheets, or a file that is no workbook at all (an empty file)
+                    pre = case['seed'] % 3
+                    if pre == 0:
+                        with pd.ExcelWriter(path, engine='openpyxl') as w:
+                            pd.DataFrame({'x': [1, 2]}).to_excel(w, sheet_name='Old sheet', index=False)
+                            pd.DataFrame({'ID': ['stale'], 'Name': ['left over']}).to_excel(w, sheet_name='T', index=False)
+                    elif pre == 1:
+                        open(path, 'wb').close()
+                FlowCal.excel_ui.write_workbook(path, [('T', written.set_index('ID')), ('Other', pd.DataFrame({'a': [1]}))]) if uses_ww else \
                     written.to_excel(path, sheet_name='T', index=False)
+                if uses_ww:
+                    import openpyxl
+                    names = list(openpyxl.load_workbook(path, read_only=True).sheetnames)
+                    if names != ['T', 'Other']:
+                        return {'ok': False, 'detail': 'write_workbook wrote the sheets [T, Other] to a path where %s lay before; the workbook now holds the sheets %s' % (
+                            ['an older workbook', 'an empty file', 'nothing'][case['seed'] % 3], names), 'ids': [None if pd.isnull(x) else x for x in written['ID']]}
             try:
                 back = FlowCal.excel_ui.read_table(path, 'T', index_col='ID')
             except ValueError as e:
@@ -143,7 +159,8 @@ class Prop(common.PropertyCheck):
             srows.append(excelgen.sample_row('S0', 'FC001', 'FCFiles/s0.fcs', {'FL1': 'MEF', 'FL2': 'a.u.'}, 'B1', extra={'Strain': 'x', 'Dose': 1.5}))
             srows.append(excelgen.sample_row('S1', 'FC001', 'FCFiles/s1.fcs', {'FL1': 'Channel', 'FL3': 'mef'}, 'B1', gate_fraction=0.5, extra={'Strain': 'y', 'Dose': 0}))
             # a row used for gating and event counts only: no units cell filled in
-            srows.append(excelgen.sample_row('S2', 'FC001', 'FCFiles/s1.fcs', {}, 'B1', gate_fraction=0.7, extra={'Strain': 'w', 'Dose': 3}))
+            # (its file is given by an absolute path)
+            srows.append(excelgen.sample_row('S2', 'FC001', os.path.join(ex.dir, 'FCFiles', 's1.fcs'), {}, 'B1', gate_fraction=0.7, extra={'Strain': 'w', 'Dose': 3}))
             if case.get('wide'):
                 ex.write_fcs('FCFiles/w0.fcs', 'FCW', n=650, seed=case['seed'] % 1000 + 8)
                 srows.append(excelgen.sample_row('W0', 'FCW', 'FCFiles/w0.fcs', {c: ['RFI', 'a.u.', 'Channel'][k % 3] for k, c in enumerate(ex.inst['FCW']['fl'])}, None,
